@@ -32,6 +32,7 @@ type Op struct {
 	Sub []SubOp `json:"sub,omitempty"`
 	Ix  []int   `json:"ix,omitempty"`
 	N   int     `json:"n,omitempty"` // nonce: distinguishes constants / temp names of this op
+	Edge bool   `json:"-"`           // generator hint: a deliberately failing boundary case
 }
 
 func (o Op) Family() string {
